@@ -2,6 +2,7 @@ package main
 
 import (
 	"fmt"
+	"math"
 	"sort"
 
 	"github.com/esimov/gogu"
@@ -363,6 +364,8 @@ func c14(r *R) {
 	c14Collections(r, maps)
 	c14SliceToMap(r)
 	c14Stateful(r)
+	c14Reentrant(r)
+	c14NaNValues(r)
 }
 
 func c14Collections(r *R, maps []map[string]int) {
@@ -653,4 +656,127 @@ func minInt(a, b int) int {
 		return a
 	}
 	return b
+}
+
+// c14Reentrant: a callback may itself use the helpers (a predicate that looks something up in another map
+// with Find, a transformation that calls Keys): the outer call returns what it returns with a plain
+// callback. Whatever a helper keeps between its steps (a pooled key buffer, a package-level scratch map)
+// is exposed by the inner call. Every map with <= 3 entries over 3 keys x 3 values, a fixed inner map.
+func c14Reentrant(r *R) {
+	inner := map[string]int{"p": 1, "q": 2, "r": 0, "s": 3}
+	pos := func(v int) bool { return v > 0 }
+	disturb := func() {
+		gogu.Find(inner, pos)
+		gogu.FindKey(inner, pos)
+		gogu.Keys(inner)
+		gogu.Values(inner)
+		gogu.FilterMap(inner, pos)
+		gogu.PickBy(inner, func(string, int) bool { return true })
+		gogu.MapValues(inner, func(v int) int { return v })
+		gogu.Invert(inner)
+		gogu.MapUnique(inner)
+	}
+	var maps []map[string]int
+	enum.Maps([]string{"a", "b", "c"}, []int{0, 1, 2}, 3, func(m map[string]int) { maps = append(maps, mcopy(m)) })
+	type call struct {
+		name string
+		f    func(m map[string]int, hook func()) string
+	}
+	calls := []call{
+		{"Find", func(m map[string]int, h func()) string {
+			return mstr(gogu.Find(m, func(v int) bool { h(); return v > 0 }))
+		}},
+		{"FindKey", func(m map[string]int, h func()) string {
+			return gogu.FindKey(m, func(v int) bool { h(); return v == 7 }) // no entry qualifies: the answer does not depend on the iteration order
+		}},
+		{"FindByKey", func(m map[string]int, h func()) string {
+			return mstr(gogu.FindByKey(m, func(k string) bool { h(); return k == "b" })) // at most one key qualifies: no dependence on the iteration order
+		}},
+		{"FilterMap", func(m map[string]int, h func()) string {
+			return mstr(gogu.FilterMap(m, func(v int) bool { h(); return v > 0 }))
+		}},
+		{"PickBy", func(m map[string]int, h func()) string {
+			return mstr(gogu.PickBy(m, func(k string, v int) bool { h(); return v > 0 }))
+		}},
+		{"OmitBy", func(m map[string]int, h func()) string {
+			return mstr(gogu.OmitBy(m, func(k string, v int) bool { h(); return v > 0 }))
+		}},
+		{"MapValues", func(m map[string]int, h func()) string {
+			return mstr(gogu.MapValues(m, func(v int) int { h(); return v + 1 }))
+		}},
+		{"MapKeys", func(m map[string]int, h func()) string {
+			return mstr(gogu.MapKeys(m, func(k string, v int) string { h(); return k + "!" }))
+		}},
+		{"MapEvery", func(m map[string]int, h func()) string {
+			return fmt.Sprint(gogu.MapEvery(m, func(v int) bool { h(); return v > 0 }))
+		}},
+		{"MapSome", func(m map[string]int, h func()) string {
+			return fmt.Sprint(gogu.MapSome(m, func(v int) bool { h(); return v > 7 }))
+		}},
+	}
+	for _, m := range maps {
+		for _, c := range calls {
+			var plain, re string
+			p1, _ := enum.Try(func() { plain = c.f(mcopy(m), func() {}) })
+			p2, msg := enum.Try(func() { re = c.f(mcopy(m), disturb) })
+			r.Eval(c.name + "/re-entrant-callback")
+			if p1 != p2 || plain != re {
+				r.Bad(c.name+"/re-entrant-callback-changes-the-result", fmt.Sprintf("%s(%s) with a callback that uses the map helpers on another map", c.name, mstr(m)), "got %s (panic=%t %s), with a plain callback %s", re, p2, msg, plain)
+			}
+		}
+	}
+	r.Nontrivial("reentrant-a")
+	r.Nontrivial("reentrant-b")
+}
+
+// c14NaNValues: float values include NaN, which equals nothing, itself included: every NaN entry is a
+// distinct value (MapUnique keeps them all, under their own keys), Invert maps it nowhere useful but the
+// other entries are untouched, MapContains(NaN) is false, Values/Keys list every entry.
+func c14NaNValues(r *R) {
+	nan := math.NaN()
+	for _, m := range []map[string]float64{
+		{"a": nan}, {"a": nan, "b": nan}, {"a": 1, "b": nan}, {"": 2, "a": nan, "b": 2}, {"": nan, "a": 1, "b": 1, "c": nan},
+	} {
+		wit := fmt.Sprintf("map %v", m)
+		in := map[string]float64{}
+		for k, v := range m {
+			in[k] = v
+		}
+		u := gogu.MapUnique(in)
+		r.Eval("MapUnique/NaN-values")
+		nanIn, nanOut := 0, 0
+		for _, v := range m {
+			if v != v {
+				nanIn++
+			}
+		}
+		distinct := map[float64]bool{}
+		for k, v := range u {
+			if v != v {
+				nanOut++
+			} else {
+				distinct[v] = true
+			}
+			if mv, ok := m[k]; !ok || (mv != v && (mv == mv || v == v)) {
+				r.Bad("MapUnique/entry-not-from-the-map/NaN-values", wit, "MapUnique returned entry %q=%v, which the map does not hold", k, v)
+			}
+		}
+		wantDistinct := map[float64]bool{}
+		for _, v := range m {
+			if v == v {
+				wantDistinct[v] = true
+			}
+		}
+		if nanOut != nanIn || len(distinct) != len(wantDistinct) || len(u) != nanIn+len(wantDistinct) {
+			r.Bad("MapUnique/NaN-values", wit, "MapUnique = %v: want one entry per distinct value and every NaN entry (NaN equals nothing)", u)
+		}
+		if gogu.MapContains(in, nan) {
+			r.Bad("MapContains/NaN", wit, "MapContains(NaN) = true")
+		}
+		if len(gogu.Values(in)) != len(m) || len(gogu.Keys(in)) != len(m) {
+			r.Bad("Keys-Values/NaN-values", wit, "Keys/Values list %d/%d entries, want %d", len(gogu.Keys(in)), len(gogu.Values(in)), len(m))
+		}
+	}
+	r.Nontrivial("nan-a")
+	r.Nontrivial("nan-b")
 }
